@@ -123,6 +123,11 @@ def catalogue():
     return c
 
 
+def core_leaves():
+    """the leaves that get the deepest exploration in the thorough tiers"""
+    return ["str-norm", "int09", "bool", "list-int", "dict-typed", "int-req", "str-regex-req", "challenge", "bytes", "any", "list-int-cd", "dict-typed-cd"]
+
+
 def option_leaves():
     return ["int-fracbounds", "int-negfrac", "port-fracmin", "str-case-spelled", "loglevel-case-spelled", "str-req-min0",
             "file-new-in-dir", "file-in-dir", "dir-in-dir"]
